@@ -325,19 +325,6 @@ def read_memory(pm, interp):
         raise TranslateError("process_memory_address: unexpected parameters")
     param = pm.args.args[1].arg
     r = {}
-    # <shift_op>.lower() in <constant collection of strings>
-    cands = []
-    for n in ast.walk(pm):
-        if isinstance(n, ast.Compare) and len(n.ops) == 1 and isinstance(n.ops[0], (ast.In, ast.NotIn)):
-            ok, v = fenv.try_const(n.comparators[0])
-            if ok and isinstance(v, (list, tuple, set, frozenset)) and v and all(isinstance(x, str) for x in v):
-                cands.append((n, sorted(v) if isinstance(v, (set, frozenset)) else list(v)))
-    if len(cands) != 1:
-        raise TranslateError("process_memory_address: list of scaling shift ops not found")
-    test, r["valid"] = cands[0]
-    if not any(isinstance(x, ast.Attribute) and x.attr == "lower" for x in ast.walk(test.left)) \
-            or isinstance(test.ops[0], ast.NotIn):
-        raise TranslateError("process_memory_address: scaling shift op is not tested as `<op>.lower() in <list>`")
     # scale = <const> ** int(...)
     pows = [n for n in ast.walk(pm) if isinstance(n, ast.BinOp) and isinstance(n.op, ast.Pow)]
     pows = [(n.left, n) for n in pows] + [(n.args[0], n) for n in ast.walk(pm) if U.is_call(n, name="pow") and len(n.args) == 2]
@@ -347,6 +334,22 @@ def read_memory(pm, interp):
     if not ok or not isinstance(base, int) or isinstance(base, bool):
         raise TranslateError("process_memory_address: `scale = <const> ** int(...)` not found")
     r["scale_base"] = base
+    # the test that guards it: <shift_op>.lower() in <constant collection of strings>
+    cands = []
+    for st in ast.walk(pm):
+        if not (isinstance(st, ast.If) and any(x is pows[0][1] for b in st.body for x in ast.walk(b))):
+            continue
+        for n in ast.walk(st.test):
+            if isinstance(n, ast.Compare) and len(n.ops) == 1 and isinstance(n.ops[0], (ast.In, ast.NotIn)):
+                ok, v = fenv.try_const(n.comparators[0])
+                if ok and isinstance(v, (list, tuple, set, frozenset)) and v and all(isinstance(x, str) for x in v):
+                    cands.append((n, sorted(v) if isinstance(v, (set, frozenset)) else list(v)))
+    if len(cands) != 1:
+        raise TranslateError("process_memory_address: list of scaling shift ops not found")
+    test, r["valid"] = cands[0]
+    if not any(isinstance(x, ast.Attribute) and x.attr == "lower" for x in ast.walk(test.left)) \
+            or isinstance(test.ops[0], ast.NotIn):
+        raise TranslateError("process_memory_address: scaling shift op is not tested as `<op>.lower() in <list>`")
     # the variable handed to MemoryOperand(scale=...): its constant (default) assignment
     ctor = only([n for n in ast.walk(pm) if U.is_call(n, name="MemoryOperand")], "process_memory_address: MemoryOperand(...)")
     sv = only([k.value for k in ctor.keywords if k.arg == "scale"], "process_memory_address: MemoryOperand(scale=...)")
